@@ -103,11 +103,18 @@ def _docstring(r: Any, fmt: str, n0: int, params: List[str], allow_param: bool, 
             k = r.random()
             first = len(fl)
             t = tok()
+            below = fmt == 'restructuredtext' and r.random() < .4        # reST: the field body may start on the line under the marker
             if k < .3:
-                fl.append(f"{mk('nosuchfield' + t, None)} {words(2)}")
+                if below:
+                    fl += [mk('nosuchfield' + t, None), f'    {words(2)}', f'    {words(1)}']
+                else:
+                    fl.append(f"{mk('nosuchfield' + t, None)} {words(2)}")
                 fplants.append(Plant('unknown-field', 'nosuchfield' + t, first, first))
             elif k < .55 and allow_param:
-                fl.append(f"{mk('param', 'nosuchparam' + t)} {words(2)}")
+                if below:
+                    fl += [mk('param', 'nosuchparam' + t), f'    {words(2)}']
+                else:
+                    fl.append(f"{mk('param', 'nosuchparam' + t)} {words(2)}")
                 fplants.append(Plant('bad-param', 'nosuchparam' + t, first, first))
             elif k < .8 and params and allow_param:
                 fl.append(f"{mk('param', r.choice(params))} {words(2)}")
@@ -281,11 +288,23 @@ def _module(r: Any, fmt: str, k: int, n0: int) -> Tuple[str, List[Plant]]:
         plants.append(p)
     out.append('class K:')
     doc('    ', [], False, 'K', cls=True)
+    out.append('    def twin(self): pass')
     out.append('    attr = 1')
     doc('    ', [], False, 'K.attr')
     out.append('    def meth(self, x):')
     doc('        ', ['x'], True, 'K.meth')
     out.append('        return x')
+    # a second class defining `twin` as well: a bare reference to it from a function of the module is ambiguous
+    out.append('class K2:')
+    out.append('    def twin(self): pass')
+    out.append('def ambig(a):')
+    at = f'{counter[0]}'
+    counter[0] += 50
+    lines = [f'word{r.randrange(1000)} word{r.randrange(1000)}', '', f'word{r.randrange(1000)}', f'word {"L{twin}" if fmt == "epytext" else "`twin`"} word{at}', f'word{r.randrange(1000)}']
+    p = Plant('ambiguous', 'ambiguous ref to twin', 2, 3)
+    _emit_doc(out, '    ', lines, [p], r, 'ambig')
+    plants.append(p)
+    out.append('    return a')
     return '\n'.join(out) + '\n', plants
 
 
@@ -311,6 +330,7 @@ PAIRED = {
     'consolidated': 'Unable to split consolidated field',
     'expr-unparsable': 'bad rendering of constant',
     'type-error': ('in type expression', 'invalid value set', 'invalid type'),
+    'ambiguous': 'ambiguous ref to twin',
 }
 UNPARSABLE = ('markup-nonfatal', 'markup-fatal', 'consolidated', 'expr-unparsable', 'type-error')
 
@@ -335,6 +355,8 @@ def _judge(res: core.Res, r: Any, fmt: str, label: str) -> None:
             src, plants = _module(r, fmt, k, n0)
             in_pkg = r.random() < .3
             if in_pkg:
+                # (class K moves to the package: `twin` is then defined by one class of the module only and is not ambiguous any more)
+                plants = [p for p in plants if p.kind != 'ambiguous']
                 # the module lives in a package that re-exports its class and first function: they are documented under the package,
                 # their docstrings are still written in the module's file
                 os.makedirs(os.path.join(base, f'pk{k}'), exist_ok=True)
